@@ -328,15 +328,7 @@ def mutate(d, kind, rng):
 
 class Lane(LaneBase):
     PROP = 'C05'
-    THEOREMS = [
-        'CG.C05.edgeType_text_generated', 'CG.C05.vtype_text_generated', 'CG.C05.reserved_keys_generated',
-        'CG.C05.fromDict_toDict', 'CG.C05.fromDict_toDict_validated', 'CG.C05.fromDict_toDict_cyclic_refused',
-        'CG.C05.fromDict_toDict_noMeta', 'CG.C05.toDict_fromDict_toDict', 'CG.C05.copy_eq', 'CG.C05.toDict_congr',
-        'CG.C05.build_order_irrelevant', 'CG.C05.skeleton_roundtrip', 'CG.C05.toPlain_preserves',
-        'CG.C05.toTs_preserves', 'CG.C05.toTs_fails_unparsable', 'CG.C05.toTs_fails_against', 'CG.C05.toTs_succeeds_iff',
-        'CG.C05.fromCausalGraph_eq', 'CG.C05.fromCausalGraph_plain', 'CG.C05.tsImage_edge', 'CG.C05.tsImage_edge_inv',
-        'CG.C05.tsImage_node',
-    ]
+    THEOREMS = 'auto'
     AUDIT = 'CG/Audit/C05.lean'
     RULE = ('graphs built on the real implementation from random mutation histories (both classes, all edge types, '
             'variable types, positive / zero / negative lags, nested JSON metadata on graph, nodes and edges, Node-object '
